@@ -52,6 +52,11 @@ pub enum HOp {
 	Callback { frames: usize },
 	/// stop the sound with a fade of that many seconds: it must get there, listener or no listener
 	StopSound { fade: f64 },
+	/// schedule a jump of the listener for later (`StartTime::Delayed`): until then it stays where
+	/// it is (a move in progress is replaced, i.e. stands still)
+	MoveListenerLater { pos: [f32; 3], delay: f64 },
+	/// tell the listener to stay where it is, instantly: whatever was pending is cancelled
+	HoldListener,
 }
 
 #[derive(Clone, Debug, Serialize, Deserialize)]
@@ -104,7 +109,7 @@ fn gen_case(seed: u64, index: u64, tier: Tier) -> Case {
 	} else if index % 12 == 11 {
 		Stream::Turn {
 			a_deg: rng.frange(1.0, 35.0) as f32,
-			target: rng.below(3) as u8,
+			target: rng.below(4) as u8,
 			dur_chunks: rng.usize_below(4),
 			ibs: *rng.pick(&[4usize, 32, 128]),
 		}
@@ -184,6 +189,15 @@ fn gen_case(seed: u64, index: u64, tier: Tier) -> Case {
 					frames: if rng.chance(0.6) { ibs } else { rng.urange(1, 3 * ibs) },
 				},
 			});
+			// a scheduled move that is cancelled a callback later by "stay where you are"
+			if rng.chance(0.06) {
+				ops.push(HOp::MoveListenerLater {
+					pos: v3(&mut rng, 20.0),
+					delay: *rng.pick(&[4.0 * unit, 6.0 * unit, 12.0 * unit]),
+				});
+				ops.push(HOp::Callback { frames: ibs });
+				ops.push(HOp::HoldListener);
+			}
 		}
 		ops.push(HOp::Callback { frames: ibs });
 		ops.push(HOp::Callback { frames: ibs });
@@ -541,6 +555,12 @@ fn run_history(ops: &[HOp], ibs: usize, nested: bool, map_in: (f64, f64), relink
 	let mut logs: Vec<Arc<Mutex<Vec<(Option<f32>, f64)>>>> = vec![];
 	let mut l_model: Option<(Lerp, u64, Option<u64>)> = None; // (position, first cb, drop gap) of the listener the track is bound to
 	let mut pending_l: Option<(Vec3, f64)> = None;
+	// a delayed jump that has been sent: (freeze the model when the command is read, seconds left).
+	// If it is not cancelled in time the model no longer knows where the listener is
+	let mut later_cmd: Option<f64> = None;
+	let mut later_left: Option<f64> = None;
+	let mut hold_cmd = false;
+	let mut listener_uncertain = false;
 	let mut pending_e: Option<(Vec3, f64)> = None;
 	let mut e_model = Lerp::fixed(Vec3::new(0.0, 0.0, 4.0));
 	let mut cb = 0u64;
@@ -608,6 +628,38 @@ fn run_history(ops: &[HOp], ibs: usize, nested: bool, map_in: (f64, f64), relink
 						},
 					);
 					pending_l = Some((Vec3::from(*pos), *dur));
+					later_cmd = None;
+					hold_cmd = false;
+				}
+			}
+			HOp::MoveListenerLater { pos, delay } => {
+				if let Some(l) = listener.as_mut() {
+					l.set_position(
+						Vec3::from(*pos),
+						Tween {
+							start_time: kira::StartTime::Delayed(std::time::Duration::from_secs_f64(*delay)),
+							duration: std::time::Duration::ZERO,
+							..Default::default()
+						},
+					);
+					pending_l = None;
+					hold_cmd = false;
+					later_cmd = Some(*delay);
+					res.hit("listener_moves_scheduled_for_later");
+				}
+			}
+			HOp::HoldListener => {
+				if let (Some(l), Some(lm)) = (listener.as_mut(), l_model.as_ref()) {
+					l.set_position(
+						lm.0.value,
+						Tween {
+							duration: std::time::Duration::ZERO,
+							..Default::default()
+						},
+					);
+					pending_l = None;
+					later_cmd = None;
+					hold_cmd = true;
 				}
 			}
 			HOp::MoveEmitter { pos, dur } => {
@@ -648,6 +700,32 @@ fn run_history(ops: &[HOp], ibs: usize, nested: bool, map_in: (f64, f64), relink
 					if let Some(lm) = l_model.as_mut() {
 						lm.0.set(to, d);
 					}
+					later_left = None;
+				}
+				if let Some(delay) = later_cmd.take() {
+					// the listener stands still from now on and jumps when the delay is over
+					if let Some(lm) = l_model.as_mut() {
+						let v = lm.0.value;
+						lm.0 = Lerp::fixed(v);
+					}
+					later_left = Some(delay);
+				}
+				if hold_cmd {
+					hold_cmd = false;
+					if let Some(lm) = l_model.as_mut() {
+						let v = lm.0.value;
+						lm.0 = Lerp::fixed(v);
+					}
+					if later_left.take().is_some() {
+						res.hit("scheduled_listener_moves_cancelled");
+					}
+				}
+				if let Some(left) = later_left.as_mut() {
+					*left -= *frames as f64 / sr;
+					if *left < 2.0 * ibs as f64 / sr {
+						// (not cancelled in time: from here on the model does not know)
+						listener_uncertain = true;
+					}
 				}
 				if let Some((to, d)) = pending_e.take() {
 					e_model.set(to, d);
@@ -677,7 +755,7 @@ fn run_history(ops: &[HOp], ibs: usize, nested: bool, map_in: (f64, f64), relink
 					}
 					let expect_dist = if listener_present { l_model.as_ref().map(|lm| (lm.0.value - e_seen).length()) } else { None };
 					for (pi, log) in all_logs.iter().enumerate() {
-						if cb < track_first_cb || log.len() != lens.len() {
+						if cb < track_first_cb || log.len() != lens.len() || (listener_uncertain && listener_present) {
 							continue;
 						}
 						let (seen, param) = log[k];
@@ -861,6 +939,8 @@ fn run_turn(a_deg: f32, target: u8, dur_chunks: usize, ibs: usize, res: &mut Cas
 		0 => -Quat::from_rotation_y(-a),
 		// the very same orientation, written with the other sign
 		1 => -q1,
+		// an about-face on the spot: afterwards the emitter is on the listener's LEFT
+		3 => Quat::from_rotation_y(a + std::f32::consts::PI),
 		_ => Quat::from_rotation_y(-a),
 	};
 	let built = monitor::catch(move || {
@@ -890,6 +970,30 @@ fn run_turn(a_deg: f32, target: u8, dur_chunks: usize, ibs: usize, res: &mut Cas
 			return;
 		}
 		if cb == 0 {
+			continue;
+		}
+		if target == 3 {
+			// about-face: right ear before the turn, left ear once it is over (two buffers of slack)
+			let after = cb >= 2 + dur_chunks + 2;
+			if cb == 1 || after {
+				for i in 0..ibs {
+					let (lft, rgt) = (out[2 * i], out[2 * i + 1]);
+					trace.f32(lft);
+					trace.f32(rgt);
+					let ok = if after { lft > rgt + 1e-3 && lft > 0.1 } else { rgt > lft + 1e-3 && rgt > 0.1 };
+					if !ok || !lft.is_finite() || !rgt.is_finite() {
+						res.fail(Violation::new(
+							"geometry",
+							"wrong-ear-favoured-after-about-face",
+							format!(
+								"callback {cb} frame {i}: output ({lft}, {rgt}); the emitter is 5 units to the right of a listener at yaw {a_deg} deg who turns by 180 deg on the spot over {dur_chunks} internal buffers starting at callback 2: the right ear is favoured before, the left ear after"
+							),
+						));
+						return;
+					}
+					frames_checked += 1;
+				}
+			}
 			continue;
 		}
 		for i in 0..ibs {
@@ -961,7 +1065,7 @@ impl Check for C15 {
 		CheckInfo {
 			id: "C15",
 			level: "exploration",
-			rule: "five streams. sched (1/24): a gameplay task adds a listener, a spatial track bound to it (optionally nested) and a sound while an audio task runs callbacks under seeded random schedules - the track must be audible afterwards, and the first frame ever heard of the sound (a ramp) is its first frame: a track that ran without its listener consumes the sound in silence; turn (1/12): the listener turns between two yaw angles given by quaternions of either sign (q / -q), instantly or over a few internal buffers, with the emitter on its right: every frame favours the right ear; nested (1/6): a spatial track (listener B) inside - directly or through a plain track - a spatial track (listener A) with a plain track below it, each with a FromListenerDistance probe, either listener dropped at a seeded callback; history (1/6): seeded history over {add listener (the first one gets a spatial track, optionally with a nested non-spatial child, each with a FromListenerDistance probe parameter and a DC sound), drop the listener, tween the listener position, tween the emitter position, stop the sound with a fade (it must reach Stopped with or without a listener), callback} at a seeded internal buffer size, 30% on a pass-through track (no attenuation function, spatialization strength 0: silent without a listener like any other spatial track), 40% with a probe effect that adds a signal of its own (which must not get out without a listener either) - simulated on the device with a per-chunk reference of both positions; geometry (2/3): generated listener pose, emitter position, distance range (proper, equal, inverted, zero-based), attenuation curve, strength, edge classes (listener and emitter coincident; emitter exactly on one of the listener's ears; the same orientation given as a quaternion that is not of unit length), rendered through the manager and related to a second rendering (farther along the same ray, mirrored, rigidly moved, stereo input, the same scene with a linear roll-off) - plain input generation evaluated as cross-run invariants; non-trivial = every case renders; distinct = hash of the outputs / of the per-callback (listener present, chunks) sequence",
+			rule: "five streams. sched (1/24): a gameplay task adds a listener, a spatial track bound to it (optionally nested) and a sound while an audio task runs callbacks under seeded random schedules - the track must be audible afterwards, and the first frame ever heard of the sound (a ramp) is its first frame: a track that ran without its listener consumes the sound in silence; turn (1/12): the listener turns between two yaw angles given by quaternions of either sign (q / -q), instantly or over a few internal buffers, with the emitter on its right: every frame favours the right ear - or turns about on the spot: the right ear before, the left ear after; nested (1/6): a spatial track (listener B) inside - directly or through a plain track - a spatial track (listener A) with a plain track below it, each with a FromListenerDistance probe, either listener dropped at a seeded callback; history (1/6): seeded history over {add listener (the first one gets a spatial track, optionally with a nested non-spatial child, each with a FromListenerDistance probe parameter and a DC sound), drop the listener, tween the listener position, schedule a jump of the listener for later and cancel it a callback afterwards by telling it to stay where it is, tween the emitter position, stop the sound with a fade (it must reach Stopped with or without a listener), callback} at a seeded internal buffer size, 30% on a pass-through track (no attenuation function, spatialization strength 0: silent without a listener like any other spatial track), 40% with a probe effect that adds a signal of its own (which must not get out without a listener either) - simulated on the device with a per-chunk reference of both positions; geometry (2/3): generated listener pose, emitter position, distance range (proper, equal, inverted, zero-based), attenuation curve, strength, edge classes (listener and emitter coincident; emitter exactly on one of the listener's ears; the same orientation given as a quaternion that is not of unit length), rendered through the manager and related to a second rendering (farther along the same ray, mirrored, rigidly moved, stereo input, the same scene with a linear roll-off) - plain input generation evaluated as cross-run invariants; non-trivial = every case renders; distinct = hash of the outputs / of the per-callback (listener present, chunks) sequence",
 			assumptions: vec![
 				"the geometric relations (monotonicity, ear gains, mirror, rigid motion, stereo pass-through) are input-generation checks, not schedule- or fault-dependent; they are included because the same harness renders them, and are stated as such".into(),
 				"tolerances: 1e-4 on gains, 2e-3 / 3e-3 for mirrored / moved scenes (f32 quaternion arithmetic), rigid-motion comparison skipped within 1e-3 of a distance limit".into(),
